@@ -123,6 +123,14 @@ def run_scenario(chk, sc, cfgseed, dtype, axes, flavour="sched", workers=None):
 
 
 def run(chk, replay):
+    _run(chk, replay)
+    if not replay:
+        # the working directory changes between runs on plotfiles typed under a relative name (PoolEnv.tla)
+        from harness import poolenv
+        poolenv.tool_phase(chk, "whip")
+
+
+def _run(chk, replay):
     chk.rule = ("behaviours of Whip.tla emitted by TLC (mesh x files per level x limit x arrival order), replayed through whip's "
                 "main() with float64/float32/float16/int16/int32/int64 (integer and half grids on moderate finite values) and the lattice axes assigned to every permutation of (x, y, z); signature = (levels, "
                 "limit, per-level (boxes, files), arrival class, dtype, axes); trivial = one level, one file")
